@@ -118,7 +118,9 @@ Spec == Init /\ [][Next]_vars
 
 ---------------------------------------------------------------------------
 Viol == ProcTimeViol(p, inp, outs)
-C14_Pt == LET v == Viol IN IF v = {} THEN TRUE ELSE PrintT(<<"MODELVIOL", v>>) /\ FALSE
+(* the predicates are monotone in the history (a violation of a prefix stays one), every behaviour
+   can be completed within the bounds: judging the complete behaviours judges all prefixes *)
+C14_Pt == done => LET v == Viol IN IF v = {} THEN TRUE ELSE PrintT(<<"MODELVIOL", v>>) /\ FALSE
 
 TypeOK == \A k \in KEYS : \A i \in 1..(Len(st[k]) - 1) : st[k][i].s + p.slide = st[k][i + 1].s
 
